@@ -133,6 +133,9 @@ def run_unit(unit, rec):
         d = tempfile.mkdtemp(prefix="c17kw")
         try:
             os.makedirs(os.path.join(d, "sub"))
+            os.makedirs(os.path.join(d, "other"))
+            with open(os.path.join(d, "other", "api"), "wb") as f:  # same file name as sub/api: two lists, both must be searched
+                f.write(b"b1\nA.\n")
             with open(os.path.join(d, "vba.name"), "wb") as f:
                 f.write(b"aA\r\na\r\n\r\n1.\r\n")
             with open(os.path.join(d, "sub", "api"), "wb") as f:
@@ -140,13 +143,15 @@ def run_unit(unit, rec):
             reg = build_registry(d, include=["xml"])
             searchers = [s for s in reg if getattr(s, "func", None) is not None]
             want = {"vba.name": [b"aA", b"a", b"1."], "api": [b"Aa", b"ab"]}
-            if sorted(s.args[0] for s in searchers) != sorted(want):
+            want_lists = {"vba.name": [[b"aA", b"a", b"1."]], "api": [[b"Aa", b"ab"], [b"b1", b"A."]]}
+            if sorted(s.args[0] for s in searchers) != sorted(k for k, v in want_lists.items() for _ in v):
                 rec.violation("C17.registry", "searchers", {"kind": "registry"}, f"keyword searchers built: {[s.args[0] for s in searchers]}", 1)
             for s in searchers:
                 label = s.args[0]
                 for data in datas(maxlen - 1):
                     rec.mark("states", (label, data), True)
-                    check(rec, label, want.get(label, []), data, fn=s)
+                    mine = [lst for lst in want_lists.get(label, []) if sorted(lst) == sorted(s.args[1])]
+                    check(rec, label, mine[0] if mine else [], data, fn=s)
             rec.sample({"registry_dir": sorted(want), "last_data": data})
         finally:
             shutil.rmtree(d, ignore_errors=True)
